@@ -116,6 +116,7 @@ type evalCtx struct {
 	lookup func(name string, cur *State) (bound, bool)
 	cur    *State
 	old    *State
+	now    *State // the real current state (cur is switched to old inside old())
 	qvars  map[string]bound
 }
 
@@ -123,6 +124,12 @@ type evalCtx struct {
 // entry points
 
 func (fr *Frame) frameLookup(extra map[string]bound) func(string, *State) (bound, bool) {
+	return fr.frameLookupNow(extra, nil)
+}
+
+// frameLookupNow: now (if non-nil) is the state in which the function's own address-taken
+// locals are read: old(x) of a local means its current value (locals do not exist on entry).
+func (fr *Frame) frameLookupNow(extra map[string]bound, nowp **State) func(string, *State) (bound, bool) {
 	return func(name string, cur *State) (bound, bool) {
 		if extra != nil {
 			if b, ok := extra[name]; ok {
@@ -134,7 +141,22 @@ func (fr *Frame) frameLookup(extra map[string]bound) func(string, *State) (bound
 		}
 		for _, p := range fr.fn.Params {
 			if p.Name() == name {
-				// a parameter whose address is taken lives in a cell; the name means the entry value
+				// a parameter that the body reassigns: inside a loop contract the name means the
+				// loop-carried current value; old(p) and postconditions mean the entry value
+				inOld := nowp != nil && *nowp != nil && cur != *nowp
+				if !inOld && fr.curLoop != nil {
+					for _, in := range fr.curLoop.header.Instrs {
+						phi, ok := in.(*ssa.Phi)
+						if !ok {
+							break
+						}
+						if phi.Comment == name {
+							if v, have := fr.vals[phi]; have {
+								return bound{v, phi.Type()}, true
+							}
+						}
+					}
+				}
 				return bound{fr.val(p), p.Type()}, true
 			}
 		}
@@ -147,7 +169,11 @@ func (fr *Frame) frameLookup(extra map[string]bound) func(string, *State) (bound
 		if a, ok := fr.names["&"+name]; ok {
 			if _, have := fr.vals[a]; have {
 				pt := a.Type().(*types.Pointer).Elem()
-				return bound{fr.vc.load(cur, fr.val(a), pt), pt}, true
+				lst := cur
+				if nowp != nil && *nowp != nil {
+					lst = *nowp
+				}
+				return bound{fr.vc.load(lst, fr.val(a), pt), pt}, true
 			}
 		}
 		// phi of the innermost enclosing loop first
@@ -200,7 +226,8 @@ func (fr *Frame) evalExprText(text string, cur, old *State, extra map[string]bou
 	if err != nil {
 		return Value{}, nil, err
 	}
-	ec := &evalCtx{vc: fr.vc, fr: fr, pkg: fr.fn.Pkg.Pkg, lookup: fr.frameLookup(extra), cur: cur, old: old, qvars: map[string]bound{}}
+	ec := &evalCtx{vc: fr.vc, fr: fr, pkg: fr.fn.Pkg.Pkg, cur: cur, old: old, now: cur, qvars: map[string]bound{}}
+	ec.lookup = fr.frameLookupNow(extra, &ec.now)
 	return ec.evalSafe(e)
 }
 
@@ -904,9 +931,12 @@ func (ec *evalCtx) evalCall(x *ast.CallExpr) (Value, types.Type) {
 		qn := sym(fmt.Sprintf("%s!q%d", id.Name, vc.nfresh))
 		saved, had := ec.qvars[id.Name]
 		ec.qvars[id.Name] = bound{Value{C: []Term{qn}}, types.Typ[types.Int]}
-		vc.inQuant++
-		body, _ := arg(3)
-		vc.inQuant--
+		var body Value
+		func() {
+			vc.inQuant++
+			defer func() { vc.inQuant-- }()
+			body, _ = arg(3)
+		}()
 		if had {
 			ec.qvars[id.Name] = saved
 		} else {
@@ -961,6 +991,39 @@ func (ec *evalCtx) evalCall(x *ast.CallExpr) (Value, types.Type) {
 		v, _ := arg(0)
 		vc.declareFun("unixnano", []string{"Int", "Int"}, "Int")
 		return Value{C: []Term{sApp("unixnano", v.C[0], v.C[1])}}, types.Typ[types.Int64]
+	case "elems":
+		// the backing array of a slice as a ghost array (single-component element types)
+		v, t := arg(0)
+		sl, ok := t.Underlying().(*types.Slice)
+		if !ok {
+			ec.fail("elems of non-slice")
+		}
+		cs := comps(sl.Elem())
+		out := Value{C: make([]Term, len(cs))}
+		for k, c := range cs {
+			m := vc.get(ec.cur, "M."+typeKey(sl.Elem())+c.Suffix, "(Array Int (Array Int "+c.Sort+"))")
+			out.C[k] = sSel(m, v.C[0])
+		}
+		return out, &ghostArrT{&GhostDecl{Name: "elems"}, 1, sl.Elem()}
+	case "rangeiter":
+		// number of completed iterations of the map range loop we are in
+		if ec.fr == nil || ec.fr.curLoop == nil {
+			ec.fail("rangeiter() outside a loop")
+		}
+		for _, in := range ec.fr.curLoop.header.Instrs {
+			if nx, ok := in.(*ssa.Next); ok {
+				id := ec.fr.val(nx.Iter).C[0]
+				it := vc.get(ec.cur, "ghost.rangeit", "(Array Int Int)")
+				return Value{C: []Term{sSel(it, id)}}, tUntypedInt
+			}
+		}
+		ec.fail("rangeiter(): the loop is not a range loop")
+	case "isnew":
+		// isnew(x): the object x refers to (pointer, slice, map, chan) was allocated by this activation
+		v, _ := arg(0)
+		a0 := vc.famName(allocKey, 0)
+		vc.declare(a0, allocSort)
+		return Value{C: []Term{sAnd(sNot(sSel(a0, v.C[0])), sNot(sEq(v.C[0], "0")))}}, tBool
 	case "arr":
 		v, _ := arg(0)
 		return Value{C: []Term{v.C[0]}}, tUntypedInt
@@ -1259,6 +1322,146 @@ func (fr *Frame) havocLoc(m string, pkg *types.Package, env map[string]bound, st
 // frameObligations: everything the function changed must be covered by its modifies clauses.
 // The universally quantified statement "cells outside the frame are unchanged" is checked in
 // skolemised form (one fresh index constant per dimension), so the query is quantifier free.
+// frameAllowed evaluates the contract's modifies clauses (in the entry state).
+func (fr *Frame) frameAllowed(c *Contract) (allowed []locRef, all bool, err error) {
+	for _, m := range c.Modifies {
+		locs, err := fr.resolveLoc(m, fr.fn.Pkg.Pkg, nil, fr.entry, fr.entry)
+		if err != nil {
+			return nil, false, fmt.Errorf("%s:%d: modifies %s: %v", c.File, c.Line, m, err)
+		}
+		for _, l := range locs {
+			if l.All {
+				return nil, true, nil
+			}
+		}
+		allowed = append(allowed, locs...)
+	}
+	return allowed, false, nil
+}
+
+// frameGoal: "cell F[idx...] is in the frame or has its entry value", for index terms idx.
+func (fr *Frame) frameGoal(k string, cur Term, idx []Term, allowed []locRef) Term {
+	vc := fr.vc
+	srt := vc.famSort[k]
+	entry := vc.famName(k, 0)
+	vc.declare(entry, srt)
+	a, b := cur, entry
+	for _, r := range idx {
+		a, b = sSel(a, r), sSel(b, r)
+	}
+	alts := []Term{sEq(a, b)}
+	for _, l := range allowed {
+		if l.Key != k {
+			continue
+		}
+		var eqs []Term
+		for i, ix := range l.Idx {
+			eqs = append(eqs, sEq(idx[i], ix))
+		}
+		alts = append(alts, sAnd(eqs...))
+	}
+	if len(idx) > 0 {
+		for _, al := range vc.allocs {
+			alts = append(alts, sEq(idx[0], al.ref))
+		}
+		// objects that did not exist on entry are invisible to the caller
+		a0 := vc.famName(allocKey, 0)
+		vc.declare(a0, allocSort)
+		alts = append(alts, sNot(sSel(a0, idx[0])))
+	}
+	return sOr(alts...)
+}
+
+func (fr *Frame) frameSkip(k string, ghostOnly bool) bool {
+	if k == allocKey || k == "ghost.rangeit" {
+		return true
+	}
+	if ghostOnly && !strings.HasPrefix(k, "ghost.") {
+		return true
+	}
+	return strings.HasPrefix(k, "S.") || strings.HasPrefix(k, "GI.")
+}
+
+// loopFrame: at a loop cut the havocked families keep, outside the function's frame, the
+// values they had on function entry. Checked on loop entry and on every back edge
+// (skolemised), assumed (quantified) for the arbitrary iteration.
+func (fr *Frame) loopFrameCheck(st *State, keys []string, kind, name string, pos token.Pos) {
+	vc := fr.vc
+	c := vc.contract
+	if c == nil || fr.parent != nil && false {
+		return
+	}
+	allowed, all, err := fr.rootFrame().frameAllowed(c)
+	if err != nil || all {
+		return
+	}
+	ghostOnly := c.Flags["havoc"] != ""
+	for _, k := range keys {
+		if fr.frameSkip(k, ghostOnly) {
+			continue
+		}
+		srt := vc.famSort[k]
+		cur := vc.get(st, k, srt)
+		if cur == vc.famName(k, 0) {
+			continue
+		}
+		dims, _ := sortDims(srt)
+		var sk []Term
+		for i := 0; i < dims; i++ {
+			sk = append(sk, vc.fresh("frame.r", "Int"))
+		}
+		goal := fr.rootFrame().frameGoal(k, cur, sk, allowed)
+		if fr.dry > 0 {
+			continue
+		}
+		vc.oblige(st, kind, name+":"+k, goal, pos, "modifies "+strings.Join(c.Modifies, ", "))
+	}
+}
+
+func (fr *Frame) loopFrameAssume(st *State, keys []string) {
+	vc := fr.vc
+	c := vc.contract
+	if c == nil {
+		return
+	}
+	allowed, all, err := fr.rootFrame().frameAllowed(c)
+	if err != nil || all {
+		return
+	}
+	ghostOnly := c.Flags["havoc"] != ""
+	for _, k := range keys {
+		if fr.frameSkip(k, ghostOnly) {
+			continue
+		}
+		srt := vc.famSort[k]
+		cur := vc.get(st, k, srt)
+		dims, _ := sortDims(srt)
+		if dims == 0 {
+			g := fr.rootFrame().frameGoal(k, cur, nil, allowed)
+			vc.assume(st, g)
+			continue
+		}
+		var qs []Term
+		var decl []string
+		for i := 0; i < dims; i++ {
+			vc.nfresh++
+			q := sym(fmt.Sprintf("fr!q%d", vc.nfresh))
+			qs = append(qs, q)
+			decl = append(decl, "("+q+" Int)")
+		}
+		g := fr.rootFrame().frameGoal(k, cur, qs, allowed)
+		vc.assume(st, "(forall ("+strings.Join(decl, " ")+") "+g+")")
+	}
+}
+
+func (fr *Frame) rootFrame() *Frame {
+	r := fr
+	for r.parent != nil {
+		r = r.parent
+	}
+	return r
+}
+
 func (fr *Frame) frameObligations(c *Contract, exit *State, kind string) error {
 	vc := fr.vc
 	// "havoc": the function may change any ordinary memory (it calls unknown code), but the
@@ -1293,10 +1496,7 @@ func (fr *Frame) frameObligations(c *Contract, exit *State, kind string) error {
 		if exit.heap[k] == entry {
 			continue
 		}
-		if ghostOnly && !strings.HasPrefix(k, "ghost.") {
-			continue
-		}
-		if strings.HasPrefix(k, "S.") || strings.HasPrefix(k, "GI.") {
+		if fr.frameSkip(k, ghostOnly) {
 			continue
 		}
 		vc.declare(entry, srt)
@@ -1326,6 +1526,9 @@ func (fr *Frame) frameObligations(c *Contract, exit *State, kind string) error {
 			for _, al := range vc.allocs {
 				alts = append(alts, sEq(sk[0], al.ref))
 			}
+			a0 := vc.famName(allocKey, 0)
+			vc.declare(a0, allocSort)
+			alts = append(alts, sNot(sSel(a0, sk[0])))
 		}
 		vc.oblige(exit, kind, k, sOr(alts...), fr.fn.Pos(), "modifies "+strings.Join(c.Modifies, ", "))
 	}
